@@ -26,4 +26,146 @@ theorem ctrIncLoop_spec (ctr : Bytes) (c : Nat) :
     have e2 : (b.toNat + 256 * leNat bs + c) / 256 = leNat bs + (c + b.toNat) / 256 := by omega
     rw [e1, e2]
 
+/-! ### the regenerated constants (a change of the source breaks these lemmas, hence every theorem) -/
+theorem parCmdWrap_eq : parCmdWrap = 1 := by decide
+theorem parCmdUnwrap_eq : parCmdUnwrap = 1 := by decide
+theorem parRespWrap_eq : parRespWrap = 0 := by decide
+theorem parRespUnwrap_eq : parRespUnwrap = 0 := by decide
+theorem cdfStarMax_eq : cdfStarMax = 65535 := by decide
+theorem cmdMin_eq : cmdMin = 15 := by decide
+theorem respMin_eq : respMin = 12 := by decide
+theorem respRdfMax_eq : respRdfMax = 65536 := by decide
+
+theorem ctrParity_lt (st : SmSt) : ctrParity st < 2 := by unfold ctrParity; omega
+
+/-- the parity read from `ctr[0]` is the parity of the 128-bit counter -/
+theorem ctrParity_eq (st : SmSt) (h : st.ctr.length = 16) : ctrParity st = leNat st.ctr % 2 := by
+  unfold ctrParity
+  match hc : st.ctr with
+  | [] => simp [hc] at h
+  | b :: bs => simp only [List.headD_cons, leNat]; omega
+
+/-! ### result codes -/
+
+theorem smCmdWrapPre_eq (cmd : Cmd) :
+    smCmdWrapPre cmd =
+      if Bee2V.C08.apduCmdIsValid cmd = false ∨ smBit cmd.cla = true then some .badApdu
+      else if cdfStarLen cmd > 65535 then some .badApdu else none := by
+  unfold smCmdWrapPre
+  rw [cdfStarMax_eq]
+  cases Bee2V.C08.apduCmdIsValid cmd <;> cases smBit cmd.cla <;> simp
+
+theorem smCmdWrap_code' (C : Cipher) (cmd : Cmd) (st : SmSt) :
+    (smCmdWrap C cmd st).1 =
+      if Bee2V.C08.apduCmdIsValid cmd = false ∨ smBit cmd.cla = true then .badApdu
+      else if cdfStarLen cmd > 65535 then .badApdu
+      else if ctrParity st ≠ 1 then .badLogic else .ok := by
+  unfold smCmdWrap
+  rw [smCmdWrapPre_eq, parCmdWrap_eq]
+  by_cases h1 : Bee2V.C08.apduCmdIsValid cmd = false ∨ smBit cmd.cla = true
+  · simp only [if_pos h1]
+  · simp only [if_neg h1]
+    by_cases h2 : cdfStarLen cmd > 65535
+    · simp only [if_pos h2]
+    · simp only [if_neg h2]
+      by_cases h3 : ctrParity st ≠ 1
+      · simp only [if_pos h3]
+      · simp only [if_neg h3]
+
+theorem smCmdUnwrap_code' (C : Cipher) (apdu : Bytes) (st : SmSt) :
+    (smCmdUnwrap C apdu st).1 =
+      match smCmdParse apdu with
+      | .error e => e
+      | .ok p =>
+        if ctrParity st ≠ 1 then .badLogic
+        else if mac2V C st.key1 (apdu.take 4) ((apdu.drop (4 + p.lcLen)).take (p.c1 + p.c2)) ((apdu.drop p.macOff).take 8) = false
+          then .badMac
+        else match apdu.take 4 with
+          | [_, _, _, _] => .ok
+          | _ => .badApdu := by
+  unfold smCmdUnwrap
+  rw [parCmdUnwrap_eq]
+  cases hp : smCmdParse apdu with
+  | error e => rfl
+  | ok p =>
+    simp only []
+    by_cases h3 : ctrParity st ≠ 1
+    · simp only [if_pos h3]
+    · simp only [if_neg h3]
+      cases hm : mac2V C st.key1 (apdu.take 4) ((apdu.drop (4 + p.lcLen)).take (p.c1 + p.c2)) ((apdu.drop p.macOff).take 8) with
+      | false => simp
+      | true =>
+        simp only [Bool.not_true, Bool.false_eq_true, if_false]
+        generalize apdu.take 4 = hdr
+        rcases hdr with _ | ⟨a, _ | ⟨b, _ | ⟨c, _ | ⟨d, _ | ⟨e, t⟩⟩⟩⟩⟩ <;> simp
+
+theorem smRespWrap_code' (C : Cipher) (resp : Resp) (st : SmSt) :
+    (smRespWrap C resp st).1 =
+      if resp.rdf.length > 65536 then .badApdu else if ctrParity st ≠ 0 then .badLogic else .ok := by
+  unfold smRespWrap apduRespIsValid
+  rw [parRespWrap_eq, respRdfMax_eq]
+  by_cases h1 : resp.rdf.length > 65536
+  · have : ¬ resp.rdf.length ≤ 65536 := by omega
+    simp [h1, this]
+  · have : resp.rdf.length ≤ 65536 := by omega
+    simp only [if_neg h1, this, decide_true, Bool.not_true, Bool.false_eq_true, if_false]
+    by_cases h3 : ctrParity st ≠ 0
+    · simp only [if_pos h3]
+    · simp only [if_neg h3]
+
+theorem smRespUnwrap_code' (C : Cipher) (apdu : Bytes) (st : SmSt) :
+    (smRespUnwrap C apdu st).1 =
+      match smRespParse apdu with
+      | .error e => e
+      | .ok p =>
+        if ctrParity st ≠ 0 then .badLogic
+        else if mac2V C st.key1 (apdu.take p.c1) (apdu.drop (apdu.length - 2)) ((apdu.drop p.macOff).take 8) = false then .badMac
+        else match apdu.drop (apdu.length - 2) with
+          | [_, _] => .ok
+          | _ => .badApdu := by
+  unfold smRespUnwrap
+  rw [parRespUnwrap_eq]
+  cases hp : smRespParse apdu with
+  | error e => rfl
+  | ok p =>
+    simp only []
+    by_cases h3 : ctrParity st ≠ 0
+    · simp only [if_pos h3]
+    · simp only [if_neg h3]
+      cases hm : mac2V C st.key1 (apdu.take p.c1) (apdu.drop (apdu.length - 2)) ((apdu.drop p.macOff).take 8) with
+      | false => simp
+      | true =>
+        simp only [Bool.not_true, Bool.false_eq_true, if_false]
+        generalize apdu.drop (apdu.length - 2) = sw
+        rcases sw with _ | ⟨a, _ | ⟨b, _ | ⟨c, t⟩⟩⟩ <;> simp
+
+/-! ### the parsers fail only with ERR_BAD_APDU (or the model's `oob`, excluded separately) -/
+
+theorem parse87_err {body : Bytes} {e : E} (h : parse87 body = .error e) : e = .badApdu ∨ e = .oob := by
+  unfold parse87 at h
+  repeat' (first | (cases h <;> first | exact Or.inl rfl | exact Or.inr rfl) | split at h)
+
+theorem parse97_err {rest : Bytes} {n : Nat} {e : E} (h : parse97 rest n = .error e) : e = .badApdu ∨ e = .oob := by
+  unfold parse97 at h
+  dsimp only at h
+  repeat' (first | (cases h <;> first | exact Or.inl rfl | exact Or.inr rfl) | split at h)
+
+theorem parse8E_err {rest : Bytes} {e : E} (h : parse8E rest = .error e) : e = .badApdu ∨ e = .oob := by
+  unfold parse8E at h
+  repeat' (first | (cases h <;> first | exact Or.inl rfl | exact Or.inr rfl) | split at h)
+
+theorem smCmdParse_err {apdu : Bytes} {e : E} (h : smCmdParse apdu = .error e) : e = .badApdu ∨ e = .oob := by
+  unfold smCmdParse at h
+  dsimp only at h
+  repeat' (first
+    | (cases h <;> first | exact Or.inl rfl | exact Or.inr rfl | exact parse87_err (by assumption) | exact parse97_err (by assumption) | exact parse8E_err (by assumption))
+    | split at h)
+
+theorem smRespParse_err {apdu : Bytes} {e : E} (h : smRespParse apdu = .error e) : e = .badApdu ∨ e = .oob := by
+  unfold smRespParse at h
+  dsimp only at h
+  repeat' (first
+    | (cases h <;> first | exact Or.inl rfl | exact Or.inr rfl | exact parse87_err (by assumption) | exact parse8E_err (by assumption))
+    | split at h)
+
 end Bee2V.C17
